@@ -460,6 +460,8 @@ def rule_dim(ctx):
     ctx.ob("C15.DIM", tw, "Throttle.wait sleeps max(0, (start + sum / limit) - now)", ok,
            f"Throttle.wait sleeps `{src(sl[0].args[0]) if sl and sl[0].args else None}`, not max(0, start + sum/limit - now)", construct="Throttle.wait:sleep")
     st = [f for f in p.cls("Throttle").body if isinstance(f, FuncT) and f.name == "limit" and any(last_attr(d) == "setter" for d in f.decorator_list)]
+    ctx.ob("C15.DIM", p.cls("Throttle"), "Throttle.limit has a setter (assigning a limit goes through the accounting reset)", bool(st),
+           "Throttle.limit has no property setter any more: `throttle.limit = n` no longer stores the limit the accounting reads", construct="Throttle.limit.setter missing")
     if st:
         vals = {src(n.targets[0]): src(n.value) for n in walk_no_nested(st[0]) if isinstance(n, ast.Assign)}
         ok = vals.get("self._limit") == st[0].args.args[1].arg and vals.get("self._start") == "None" and vals.get("self._sum") == "0"
